@@ -21,12 +21,14 @@ def adj (n : Nat) (i : Option Int) (dflt : Nat) : Nat :=
   | none => dflt
   | some i => if i < 0 then (if i + n < 0 then 0 else (i + n).toNat) else min i.toNat n
 
+/-- `everyNthAux k j xs`: skip `j` elements, emit one, then skip `k-1`, emit one, … -/
+def everyNthAux (k : Nat) : Nat → List α → List α
+  | _, [] => []
+  | 0, x :: xs => x :: everyNthAux k (k - 1) xs
+  | j + 1, _ :: xs => everyNthAux k j xs
+
 /-- `xs[::k]` for `k ≥ 1`: first element, then skip `k-1`. -/
-def everyNth (k : Nat) : List α → List α
-  | [] => []
-  | x :: xs => x :: everyNth k (xs.drop (k - 1))
-termination_by xs => xs.length
-decreasing_by simp only [List.length_drop, List.length_cons]; omega
+def everyNth (k : Nat) (xs : List α) : List α := everyNthAux k 0 xs
 
 /-- `xs[start:stop:step]`, `step ≥ 1` -/
 def pySlice (xs : List α) (start stop : Option Int) (step : Nat) : List α :=
